@@ -157,8 +157,7 @@ def run(res, tier):
     for n in low:
         gs = [(f.nodes[x], t) for (x, t) in C.guards_of_block(f, P.pos_of(f, n)[0])]
         for (cn, t) in gs:
-            c = A.strip_casts(cn)
-            if c['k'] == 'BinaryOperator' and c.get('op') == '<' and t and this_field(c['ch'][0], '_aggregatePulseTime') and A.strip_casts(c['ch'][1]).get('d') == minp:
+            if any(op in ('<', '<=') and this_field(l, '_aggregatePulseTime') and r.get('d') == minp for (l, op, r) in A.rel_forms(cn, t)):
                 okm = True
     res.ob('AGGREGATE', f.where(), 'GetPulseTimeAux lowers the caller\'s minimum to _aggregatePulseTime when it is smaller', okm, function=f.q, key='AGGREGATE|%s|propagate' % f.q,
            message='GetPulseTimeAux no longer propagates its aggregate time into the caller\'s minimum')
@@ -166,11 +165,26 @@ def run(res, tier):
     res.rule('SINGLE-WRITER', 'the sibling/child list links and _curList are written only in ReschedulePulseChild and the constructor', floor=1)
     bad = []
     nsc = 0
+    # allowed writers: the list-maintenance routine, the constructor, and PulseNode helpers that are called ONLY from allowed writers (a block of ReschedulePulseChild moved into a private helper)
+    allowed = set([PN + '::ReschedulePulseChild', PN + '::(ctor)'])
+    callers = {}
+    for f in fx.funcs.values():
+        if f.full:
+            for c in f.walk():
+                if c.is_call() and (c.get('q') or '').startswith(PN + '::'):
+                    callers.setdefault(c['q'], set()).add(f.q)
+    grew = True
+    while grew:
+        grew = False
+        for q_, cs in callers.items():
+            if q_ not in allowed and cs and cs <= allowed:
+                allowed.add(q_)
+                grew = True
     for f in fx.funcs.values():
         if not f.full:
             continue
         nsc += 1
-        if f.q in (PN + '::ReschedulePulseChild', PN + '::(ctor)'):
+        if f.q in allowed:
             continue
         for (w, b) in writes_of(f, LINKS):
             if b.get('q', '').startswith(PN + '::'):
